@@ -174,25 +174,25 @@ macro_rules! c20_json_string_harness {
     };
 }
 
-// @harness id=c20_json_string_2 props=C20,C01:thorough tier=thorough cap=1500
+// @harness id=c20_json_string_2 props=C20,C01:thorough tier=attempt cap=1500
 // @desc parse_json::Lexer::lex_string on a quote followed by every valid-UTF-8 string of 2 bytes: accepted iff RFC 8259 section 7 accepts, decoded characters and consumed length equal the reference decoder's
 // @bound 2 arbitrary bytes after the opening quote (single escapes, raw 1-2 byte characters, control characters, unterminated strings)
 // @funcs parse_json::Lexer::lex_string, parse_json::Lexer::eat_char, parse_json::Lexer::eat_any_char
 c20_json_string_harness!(c20_json_string_2, 2, 6);
 
-// @harness id=c20_json_string_3 props=C20,C01:thorough tier=thorough cap=3600
+// @harness id=c20_json_string_3 props=C20,C01:thorough tier=attempt cap=3600
 // @desc parse_json::Lexer::lex_string on a quote followed by every valid-UTF-8 string of 3 bytes: accepted iff RFC 8259 section 7 accepts, decoded characters and consumed length equal the reference decoder's
 // @bound 3 arbitrary bytes after the opening quote (all single escapes, raw characters of 1-3 bytes, control characters, unterminated strings)
 // @funcs parse_json::Lexer::lex_string, parse_json::Lexer::eat_char, parse_json::Lexer::eat_any_char
 c20_json_string_harness!(c20_json_string_3, 3, 8);
 
-// @harness id=c20_json_string_5 props=C20,C01 tier=thorough cap=2700
+// @harness id=c20_json_string_5 props=C20,C01 tier=attempt cap=2700
 // @desc c20_json_string_3 with 5 arbitrary bytes (adds 4-byte characters next to escapes)
 // @bound 5 arbitrary bytes after the opening quote
 // @funcs parse_json::Lexer::lex_string
 c20_json_string_harness!(c20_json_string_5, 5, 10);
 
-// @harness id=c20_json_string_uescape props=C20,C01:thorough tier=thorough cap=1500
+// @harness id=c20_json_string_uescape props=C20,C01:thorough tier=attempt cap=1500
 // @desc lex_string on `"\uXXXX"` and `"\uXXXX\uYYYY"` with arbitrary bytes in the eight X/Y positions: hex decoding, surrogate pairing and rejection of lone or mismatched surrogates equal the reference
 // @bound templates of 8 and 14 bytes with 4 / 8 arbitrary bytes
 // @funcs parse_json::Lexer::lex_string
